@@ -78,7 +78,7 @@ PROP = {'gen': [],
  'design_ref': 'DESIGN.md 6.20',
  'n_quick': 1500,
  'n_thorough': 200000,
- 'shard': 1000,
+ 'shard': 100,
  'level': 'proof',
  'extra': [sweep],
  'trusted_base': [KERNEL,
